@@ -3,13 +3,56 @@
 import json, os
 V = os.path.dirname(os.path.dirname(os.path.abspath(__file__)))
 
+KANI_NOTE = ("Trusted: Kani's MIR->goto translation and std models, CBMC + CaDiCaL, the reference models in /verif/harness. "
+             "Stubs (listed per harness in evidence): std::fmt::format -> \"\" (messages are not the subject); drop glue of plain data types is "
+             "a no-op (deallocation not modelled); per-loop unwind bounds are checked by unwinding assertions. ")
+
 CHECKS = {
+ "C03": dict(
+   text="Bounded model checking of the compiled code: every table descriptor against the documented arity set over EVERY usize operand count "
+        "(35 operators), plus the generic dispatcher op_from_map per (operator, operand count n<=6) and per bare-operand shape: accepted iff documented, "
+        "operands passed on unchanged (pointer identity) - UNSAT over all payloads.",
+   note=KANI_NOTE + "Dispatcher layer bounded at n<=6 literal operands, one harness per concrete (operator, n).",
+   design="4/C03"),
+ "C06": dict(
+   text="Bounded model checking of truthy(), the ! / !! table closures and the if / and / or users against the JsonLogic table, for every scalar "
+        "payload (all i64/u64/f64 incl. -0.0), strings of <=2 symbolic chars, [], [0], [[]], {}, {a:false}.",
+   note=KANI_NOTE + "Users are driven with literal operands (asserted cuts make operation operands unreachable); filter/all/some/none users only in the thorough tier.",
+   design="4/C06"),
+ "C07": dict(
+   text="Bounded model checking of abstract_eq/abstract_ne over the operand-shape pair matrix (null, bool, i64, u64, f64, string, [s], [], {}) with fully "
+        "symbolic payloads, 'dispatch modulo conversion' (str_to_number / to_string replaced by oracles returning ANY value) plus the real "
+        "str_to_number on an 80-string corpus against an ECMA-262 transcription; symmetry and != = not == asserted in every harness.",
+   note=KANI_NOTE + "Numeric meaning of strings is decided only on the corpus (constant-folded execution); containers limited to [s], [], {}.",
+   design="4/C07"),
+ "C08": dict(
+   text="Bounded model checking of strict_eq/strict_ne: all 9 number representation pairs over every payload, all primitive cross-type pairs, "
+        "strings of <=2 symbolic chars, distinct container instances; symmetry, !== = not ===, === implies ==.",
+   note=KANI_NOTE + "Containers obtained by evaluation: Operation::evaluate harness only in the thorough tier.",
+   design="4/C08"),
+ "C09": dict(
+   text="Bounded model checking of abstract_lt/gt/lte/gte over the same shape-pair matrix as C07 against the ECMAScript relational algorithm "
+        "(<= is less-or-equal of the converted operands), mirror laws a>b = b<a and a>=b = b<=a in every harness, and the 3-operand 'between' form "
+        "as the conjunction of the adjacent comparisons.",
+   note=KANI_NOTE + "String-to-number meaning via oracle + corpus as in C07; strings <=2 symbolic chars.",
+   design="4/C09"),
  "C10": dict(
-   text="Bounded model checking of the compiled real code: to_number_value over every f64 bit pattern; "
-        "more units listed in evidence. UNSAT = holds for all inputs inside the stated per-harness bound.",
-   note="Trusted: Kani's MIR->goto translation and std models, CBMC+CaDiCaL, the harness reference models. "
-        "std::fmt::format is stubbed (messages are not the subject). Out: float %, folds of >2 symbolic doubles.",
+   text="Assume-guarantee bounded model checking: (G1) to_number_value over EVERY f64 bit pattern; (G2) Number()/parseFloat-style conversion per "
+        "operand shape; (G3) each arithmetic operator closure == to_number_value(exact IEEE fold of the converted operands), error iff non-numeric.",
+   note=KANI_NOTE + "Two fully symbolic doubles for + - min max; for * / % one operand is symbolic and the other a per-harness constant (two symbolic "
+        "doubles through a multiplier/divider do not finish); the VALUE of float % is CBMC's fmod model on both sides (wiring only).",
    design="4/C10"),
+ "C16": dict(
+   text="Bounded model checking of substr against a character-based reference for strings of 0..1 (quick) / 0..3 (thorough) characters of symbolic "
+        "UTF-8 width with start and length ranging over EVERY i64, and of cat on operand shapes string/null/bool/object (arrays and integers in the thorough tier).",
+   note=KANI_NOTE + "substr results are compared through their byte length under symbolic widths (distinct for distinct runs); byte-wise content comparison exceeds 24 GB.",
+   design="4/C16"),
+ "C19": dict(
+   text="CrossHair (z3-backed symbolic execution of Python) over the real wrapper source with the native module stubbed: defaults, omitted/supplied "
+        "optional arguments, composition with (de)serialisers, ValueError propagation.",
+   note="Trusted: CrossHair, z3, the native-module stub (same signature as py_fn!). 'Not confirmed' conditions are bounded explorations within the per-condition timeout.",
+   design="4/C19", engine="crosshair",
+   technique="symbolic execution of the Python wrapper (CrossHair over z3) against executable contracts, counterexamples replayed natively"),
 }
 
 NA = {
@@ -53,6 +96,8 @@ def main():
             "add_only": True,
         },
         "engines": [
+            {"name": "crosshair", "path": "/verif/lib/c19.py", "serves_properties": ["C19"],
+             "kind_free_text": "CrossHair 0.0.110 symbolic execution over z3 of py/jsonlogic_rs/__init__.py with contracts in /verif/py/c19_contracts.py"},
             {"name": "kani-cbmc", "path": "/verif/lib/vlib.py", "serves_properties": sorted(k for k in CHECKS if CHECKS[k].get("engine", "kani-cbmc") == "kani-cbmc"),
              "kind_free_text": "Kani 0.68 compiles harness + real crate to goto; driver steps reproduced (goto-cc, goto-instrument), optional asserted cuts; CBMC 6.11 + CaDiCaL decides; model replayed natively"},
         ],
